@@ -199,6 +199,73 @@ theorem C04_join_keeps_observers_right (ops : List Op) (outs : List Out) (closes
   · exact (hi.sessL_iff s).mpr (by simp [hx])
   · intro l hl _ t; exact hv l hl t
 
+/-- **Observer side, a session switches rooms.**  The same when the joiner comes out of another room `r0` (one step:
+leave `r0`, join `r`): the members of the target room and the joiner end with the target room's new member set.
+(What the members of `r0` hold afterwards is `C04_leave_keeps_observers_right`.) -/
+theorem C04_switch_keeps_observers_right (ops : List Op) (outs : List Out) (closes : List Nat) (s : Nat) (x : Sess)
+    (r0 r rsid : String) (perms : Option (List String)) (su : String)
+    (hx : (run {} ops).1.sess s = some x) (hk : x.kind = .client) (hr : x.room = some r0) (hne : r ≠ r0)
+    (hv : ∀ l ∈ (run {} ops).1.roomL x.backend r, ∀ t, t ∈ seenOf (run {} ops).1 l ↔ t ∈ membersOf (run {} ops).1 x.backend r) :
+    let a' := doJoin ⟨(run {} ops).1, outs, closes⟩ s r rsid perms su
+    ∀ l, (l ∈ (run {} ops).1.roomL x.backend r ∨ l = s) → ∀ t, t ∈ seenOf a'.h l ↔
+      t ∈ membersOf (run {} ops).1 x.backend r ∨ t = s := by
+  have hi := reachable_inv ops
+  generalize (run {} ops).1 = h at *
+  have hmo : membersOf h x.backend r = ((h.rooms x.backend r).getD {}).members := by
+    unfold membersOf; cases h.rooms x.backend r <;> rfl
+  rw [hmo] at hv ⊢
+  intro a'
+  obtain ⟨rm0, hrm0, hs0⟩ := hi.room_mem' s x r0 hx hr
+  have hl0 : ∀ l ∈ h.roomL x.backend r0, Listens h l := by
+    intro l hl
+    obtain ⟨y, hy, _, hyr, hyk⟩ := (hi.roomL_iff x.backend r0 l).mp hl
+    exact ⟨y, hy, hyk, by simp [hyr]⟩
+  obtain ⟨⟨y, hy, hyk, hyr, hyb⟩, f2, f3, f4⟩ :=
+    leaveRoom_frame ⟨h, outs, closes⟩ s x r0 rm0 hx hk hr hrm0 hs0 (hi.roomL_nodup x.backend r0) hl0
+  have hne' : ¬ (x.backend = x.backend ∧ r = r0) := fun c => hne c.2
+  obtain ⟨g1, g2⟩ := f3 x.backend r hne'
+  -- the join proper starts from the state after the leave
+  have e : a' = doJoin (leaveRoom ⟨h, outs, closes⟩ s).1 s r rsid perms su :=
+    doJoin_after_leave ⟨h, outs, closes⟩ s r rsid perms su y hy hyr
+  -- listeners of the target room are neither `s` nor listeners of `r0`
+  have hother : ∀ l ∈ h.roomL x.backend r, l ≠ s ∧ l ∉ h.roomL x.backend r0 := by
+    intro l hl
+    obtain ⟨w, hw, _, hwr, _⟩ := (hi.roomL_iff x.backend r l).mp hl
+    refine ⟨?_, ?_⟩
+    · intro c; subst c; rw [hx] at hw; cases hw; rw [hr] at hwr; cases hwr; exact hne rfl
+    · intro c
+      obtain ⟨w', hw', _, hwr', _⟩ := (hi.roomL_iff x.backend r0 l).mp c
+      rw [hw] at hw'; cases hw'; rw [hwr] at hwr'; cases hwr'; exact hne rfl
+  rw [e]
+  have := doJoin_views (leaveRoom ⟨h, outs, closes⟩ s).1 s y r rsid perms su hy hyk hyr
+    (by
+      rw [hyb, g1]
+      intro hm
+      cases hrm : h.rooms x.backend r with
+      | none => simp [hrm] at hm
+      | some rm =>
+        simp only [hrm, Option.getD_some] at hm
+        obtain ⟨w, hw, _, hwr⟩ := hi.mem_room x.backend r rm s hrm hm
+        rw [hx] at hw; cases hw
+        rw [hr] at hwr; cases hwr; exact hne rfl)
+    (by rw [hyb, g2]; exact hi.roomL_nodup x.backend r)
+    (by
+      rw [hyb, g2]
+      intro l hl
+      obtain ⟨h1, h2⟩ := hother l hl
+      obtain ⟨w, hw, _, hwr, hwk⟩ := (hi.roomL_iff x.backend r l).mp hl
+      exact ⟨w, (f2 l h1 h2).trans hw, hwk, by simp [hwr]⟩)
+    (by rw [f4]; exact (hi.sessL_iff s).mpr (by simp [hx]))
+    (by
+      rw [hyb, g1, g2]
+      intro l hl _ t
+      obtain ⟨h1, h2⟩ := hother l hl
+      have := hv l hl t
+      simp only [seenOf, f2 l h1 h2] at this ⊢
+      exact this)
+  rw [hyb, g1, g2] at this
+  exact this
+
 /-- Non-vacuity / witness: in the demo history below every observer's view is its room's member set, and the
 publication theorem's premises are met by two sessions. -/
 example : viewBad (run {} [.connect 1, .connect 2, .hello 1 0 .client "alice" false false,
